@@ -512,13 +512,13 @@ def helper_models():
                 if not comma and not emitted:
                     continue  # (nothing emitted in front of a closing brace would leave a dangling comma in the hand-written text)
                 dv = "" if default is None else ", default_value=" + json.dumps(default)
-                call = '{{ rally.exists_set_param("cache", p_cache%s%s) }}' % (dv, "" if comma else ", comma=False")
+                call = '{{ rally.exists_set_param("x-setting", p_cache%s%s) }}' % (dv, "" if comma else ", comma=False")
                 op_text = '{"name": "op-h", "operation-type": "search", "index": "idx"%s %s}' % ("" if comma else ",", call)
-                raw = ('{"version": 2, "description": "d", "indices": [{"name": "idx"}], "operations": [%s],\n'
-                       ' "challenges": [{"name": "main", "default": true, "schedule": [{"operation": "op-h", "clients": {{ p_clients | default(3) }}}]}]}' % op_text)
+                raw = ('{% import "rally.helpers" as rally with context %}\n{"version": 2, "description": "d", "indices": [{"name": "idx"}], "operations": [' + op_text + '],\n'
+                       ' "challenges": [{"name": "main", "default": true, "schedule": [{"operation": "op-h", "clients": {{ p_clients | default(3) }}}]}]}')
                 op = {"name": "op-h", "operation-type": "search", "index": "idx"}
                 if emitted:
-                    op["cache"] = default if value is UNDEF else value
+                    op["x-setting"] = default if value is UNDEF else value
                 exp = {"version": 2, "description": "d", "indices": [{"name": "idx"}], "operations": [op],
                        "challenges": [{"name": "main", "default": True, "schedule": [{"operation": "op-h", "clients": 3}]}]}
                 m = {"_raw": raw, "_expect_model": exp, "_params": {} if value is UNDEF else {"p_cache": value}}
